@@ -16,6 +16,7 @@ C10 line-protocol driver.  ops:
   trunc <int> <size> <signed>       truncateIntValue
   minmax <bits> <unsigned>          getMinMaxValues
   const <int> <cchar> <u|s|-> <charbit> <unsigned> <size> <bits|-1>   literal branch of valueFlowSetConstantValue
+  cast <value> <signed> <bit>       castValue (integer part)
   fold <lnot|bnot|neg|plus> <operand value> <operand unsigned> <operand type> <int_bit> <long_bit> <token unsigned> <token size>
                                     unary folding of setTokenValue + its guard
   cun <op> <value> <operand bits> <unsigned> <int_bit>   SPEC: promoted type and C value of `op x`
@@ -143,6 +144,10 @@ def step (line : String) : String :=
       | some r => toString r
       | none => "novalue"
     | _, _, _, _ => "bad-op"
+  | ["cast", v, sg, bit] =>
+    match v.toInt?, bit.toNat? with
+    | some v, some bit => toString (castValue v (sg == "1") bit)
+    | _, _ => "bad-op"
   | ["fold", op, v, u, ty, ib, lb, tu, tsz] =>
     match unopOf op, v.toInt?, ityOf ty, ib.toNat?, lb.toNat?, tsz.toNat? with
     | some op, some v, some ty, some ib, some lb, some tsz =>
